@@ -5,7 +5,8 @@
   3. a concurrent trace with a duplicated terminal callback / a callback after unsubscribe returned is rejected by ConcProps;
   4. the lock logs of the real subscriber Observer / StreamController and of the real plain Subject are accepted by the lock-level
      design models SinkConc / SubjectConc (SinkConcTrace, SubjectConcTrace), and rejected when one lock operation or one
-     callback line is removed."""
+     callback line is removed;
+  5. every design model finds, with its "mistake" constant switched on, the violation its header announces (not vacuous)."""
 import copy
 import json
 import os
@@ -152,6 +153,40 @@ def run():
             sj1 = conccheck.subject_drift(work, harness, 1, runs=20, corrupt=dropper(ev), tagp='sjc_' + ev)
             print('selftest 4: the same logs with the first %-5s line removed: %d of %d cases rejected by SubjectConcTrace' % (ev, len(sj1['drift']), sj1['cases']))
             ok &= sj1['cases'] > 0 and len(sj1['drift']) == sj1['cases']
+        # ---- 5. the design models are not vacuous: each one has a constant that switches in a known (mostly seeded) mistake, and
+        #         TLC must find the violation the model's header announces
+        mutants = [
+            ('SinkConc', 'NThreads = 2\n MaxCalls = 2\n ArbiterFix = FALSE\n WithFinalize = FALSE', 'INVARIANTS AtMostOneTerminal', 'AtMostOneTerminal'),
+            ('CombConc', 'NInputs = 2\n NItems = 1\n Amb = FALSE\n AtomicRemove = FALSE\n AtomicElect = TRUE', 'INVARIANTS ExactlyOneComplete AtMostOneComplete', 'Complete'),
+            ('CombConc', 'NInputs = 2\n NItems = 1\n Amb = TRUE\n AtomicRemove = TRUE\n AtomicElect = FALSE', 'INVARIANTS OneWinner', 'OneWinner'),
+            ('ToVec', 'NItems = 1\n Fails = FALSE\n WakerFirst = TRUE', 'PROPERTY EventuallyReady', 'EventuallyReady'),
+            ('TimedOps', 'D = 100\n Gaps = {40, 110}\n MaxEvents = 2\n CancelOnEnd = FALSE\n ArmAfterEnd = FALSE', 'INVARIANTS ExitWithinOnePeriod', 'ExitWithinOnePeriod'),
+            ('TimedOps', 'D = 100\n Gaps = {40, 110}\n MaxEvents = 2\n CancelOnEnd = TRUE\n ArmAfterEnd = TRUE', 'INVARIANTS ExitWithinOnePeriod', 'ExitWithinOnePeriod'),
+            ('ObserveOn', 'NItems = 2\n Ending = "e"\n WithUnsub = FALSE\n ErrorDirect = TRUE', 'INVARIANTS OrderOK OnWorker', 'O'),
+            ('SubscribeOn', 'NItems = 2\n Completes = FALSE\n WithUnsub = TRUE\n HookInJob = TRUE', 'PROPERTY WorkerExits', 'WorkerExits'),
+            ('Debounce', 'D = 100\n Gaps = {40, 260}\n MaxEvents = 3\n ReadNotTake = TRUE', 'INVARIANTS InOrderNoneTwice', 'InOrderNoneTwice'),
+            ('RefCountConc', 'Leavers = {1, 2}\n Stayers = {3}\n Recheck = FALSE', 'INVARIANTS PresentMeansConnected', 'PresentMeansConnected'),
+            ('ZipConc', 'NInputs = 2\n NItems = 2\n EmitUnderLock = FALSE', 'INVARIANTS RowsInOrder', 'RowsInOrder'),
+            ('SubjectConc', 'Kind = "replay"\n NValues = 2\n WithUnsub = FALSE', 'INVARIANTS NoDup', 'NoDup'),
+        ]
+        import subprocess, re as _re
+        os.makedirs(work + '/gen', exist_ok=True)
+        for m in os.listdir(seqcheck.SPEC):
+            if m.endswith('.tla') and not os.path.exists(work + '/gen/' + m):
+                shutil.copy(seqcheck.SPEC + '/' + m, work + '/gen/' + m)
+        found = 0
+        for i, (mod, consts, props, want) in enumerate(mutants):
+            cfg = '%s/gen/mut%d.cfg' % (work, i)
+            with open(cfg, 'w') as f:
+                f.write('SPECIFICATION Spec\nCONSTANTS %s\n%s\nCHECK_DEADLOCK FALSE\n' % (consts, props))
+            r = subprocess.run(['timeout', '300'] + seqcheck.tlc_cmd(4, '%s/md-mut%d' % (work, i), cfg, mod + '.tla'), cwd=work + '/gen', capture_output=True, text=True)
+            hit = _re.search(r'(Invariant (\S+) is violated|Temporal property (\S+) was violated|Temporal properties were violated)', r.stdout)
+            okm = bool(hit) and (want in hit.group(0) or 'Temporal' in hit.group(0))
+            found += okm
+            if not okm:
+                print('selftest 5: %s with %s: TLC did NOT report the expected violation (%s)' % (mod, consts.replace('\n', ','), want))
+        print('selftest 5: %d of %d design-model mutants (the mistake each model names in its header) are caught by TLC' % (found, len(mutants)))
+        ok &= found == len(mutants)
         print('SELFTEST ' + ('ok' if ok else 'FAILED'))
         return 0 if ok else 1
     finally:
